@@ -9,7 +9,7 @@ RULE = ("random histories on echsd.c (virtual-time loop): add / replace / cancel
 
 
 def run(ctx):
-    p_echsd.run_checks(ctx, "C11", {"steps": 26, "nusers": 4, "p_cancel": 0.35, "chk": False, "http": True, "httpq": True}, 500, 6000, RULE,
+    p_echsd.run_checks(ctx, "C11", {"steps": 26, "nusers": 4, "p_cancel": 0.35, "chk": False, "http": True, "httpq": True, "conns": True}, 500, 6000, RULE,
                        me_choices=(0, 0, 0, 1001))
 
 
